@@ -217,6 +217,10 @@ func c07Run(w *W) {
 			}
 			respN++
 			tag := fmt.Sprintf("resp%d", respN)
+			if !short && w.Choose(simrt.SProg, 8) == 0 {
+				tag = "" // an empty response: exactly the 4 id bytes on the wire
+				w.Probe("empty-response")
+			}
 			var wireb []byte
 			if short {
 				wireb = []byte("xyz")[:w.Choose(simrt.SProg, 4)]
